@@ -8,6 +8,17 @@
 //   - asks the Lean trace acceptor (drv_uci) whether the model of uci.go admits the trace
 //     -> "broken-correspondence"
 //
+// Inputs: every `go` line is drawn from the grammar [ponder] x {depth | nodes | movetime | clocks |
+// infinite | nothing}* (genGo: small / large / 1024-aligned / unaligned / huge budgets, two limits
+// combined, `go ponder` with the Ponder option on and off) for the real and the mock search; a
+// pondering real search is terminated both before and after it has used up its depth / node budget
+// (waitNodes, waitInfo), with and without a ponderhit before.  Every line (idle and while a search is
+// outstanding) is written in a lexical variant (genLex: leading / trailing blanks and tabs, a tab
+// directly after the command word, several blanks between words, CRLF, mixed) that strings.Fields
+// splits into the words of the plain command; the expected behaviour is that of the plain command.
+// Histogram: go[<mode>:<class>|probe=..], go[..|term=..], lex[<variant>/<word>/<idle|busy>],
+// ponder_end[<mode>:<stop|quit|eof>/<budget state>/<ponderhit before?>].
+//
 // The harness is reactive: go (and every other non-async line) is only written after the previous
 // bestmove was read; stop, isready, ponderhit, quit and EOF are written at swept points.
 //
@@ -29,8 +40,11 @@ import (
 	"os/exec"
 	"regexp"
 	"runtime"
+	"sort"
+	"strconv"
 	"strings"
 	"sync"
+	"sync/atomic"
 	"time"
 
 	"verifharness/common"
@@ -46,10 +60,15 @@ import (
 // run specification
 
 type Step struct {
-	K string `json:"k"`           // send | eof | waitBest | waitEntered | waitInfo | sleep | release
-	S string `json:"s,omitempty"` // send: the line
-	T string `json:"t,omitempty"` // send: the model token
-	N int    `json:"n,omitempty"` // waitInfo: count, sleep: microseconds
+	K string `json:"k"`           // send | eof | waitBest | waitEntered | waitInfo | waitNodes | sleep | release
+	S string `json:"s,omitempty"` // send: the line as written (after lexical variation)
+	T string `json:"t,omitempty"` // send: the model token (that of the plain spelling)
+	N int    `json:"n,omitempty"` // waitInfo: count, waitNodes: node count reported by an info line, sleep: microseconds
+	V string `json:"v,omitempty"` // send: name of the lexical variant
+	// send of a go line (histogram only): pondering search, node budget + 1, depth budget (0 = none)
+	P  bool `json:"p,omitempty"`
+	NB int  `json:"nb,omitempty"`
+	DB int  `json:"db,omitempty"`
 }
 
 type MockCfg struct {
@@ -69,6 +88,8 @@ type Spec struct {
 	Probe   string    `json:"probe"`
 	Term    string    `json:"term"`
 	Release bool      `json:"-"`
+	Class   string    `json:"-"` // go-grammar class of the swept block
+	Blocks  []string  `json:"-"` // per block: "<class>|probe=<p>" and "<class>|term=<t>" (histogram)
 }
 
 type Res struct {
@@ -85,8 +106,12 @@ func (sp *Spec) ops() []string {
 	for _, st := range sp.Steps {
 		switch st.K {
 		case "send":
-			ops = append(ops, "send:"+st.S)
-		case "waitInfo", "sleep":
+			if st.V != "" && st.V != "plain" {
+				ops = append(ops, fmt.Sprintf("send(%s):%q", st.V, st.S))
+			} else {
+				ops = append(ops, "send:"+st.S)
+			}
+		case "waitInfo", "waitNodes", "sleep":
 			ops = append(ops, fmt.Sprintf("%s:%d", st.K, st.N))
 		default:
 			ops = append(ops, st.K)
@@ -101,37 +126,274 @@ func (sp *Spec) ops() []string {
 // ---------------------------------------------------------------------------------------------
 // generator (parent): grammar of protocol-conforming sessions
 
+// goTpl is one `go` line drawn from the grammar
+//
+//	go [ponder] { depth d | nodes n | movetime t | wtime a btime b [winc c binc d] | infinite | (nothing) }*
+//
+// together with what the harness has to know about it to schedule the probes: whether the driver
+// treats it as timed (hard timer), when the hard timer fires, whether the real search ends by
+// itself, and which budgets a pondering real search can be observed to have exhausted.
 type goTpl struct {
 	text      string
+	class     string // histogram class: <limit class>[+<limit class>] (sorted)
 	ponderArg bool
-	wtime     bool
-	btime     bool
-	movetime  bool
-	limited   bool // real search ends by itself (when not pondering)
-	hardMs    int  // hard timer (when armed) in ms, 0 = far away
-	infos     int  // real search: number of info lines before it returns by itself (0 = unknown)
+	wt, bt    int64 // wtime / btime (0 = absent)
+	wi, bi    int64
+	mt        int64 // movetime
+	depth     int   // 0 = absent
+	nodes     int   // -1 = absent
 }
 
-var mockGo = []goTpl{
-	{text: "go"}, {text: "go infinite"}, {text: "go depth 5"},
-	{text: "go ponder", ponderArg: true},
-	{text: "go ponder wtime 60000 btime 60000", ponderArg: true, wtime: true, btime: true},
-	{text: "go movetime 4", movetime: true, hardMs: 4},
-	{text: "go ponder movetime 3", ponderArg: true, movetime: true, hardMs: 3},
-	{text: "go wtime 60000 btime 60000 winc 100 binc 100", wtime: true, btime: true},
-	{text: "go wtime 90 btime 0", wtime: true, hardMs: 30},
+func (g *goTpl) timed(black bool) bool {
+	return g.mt > 0 || (!black && g.wt > 0) || (black && g.bt > 0)
 }
 
-var realGo = []goTpl{
-	{text: "go depth 1", limited: true, infos: 2}, {text: "go depth 2", limited: true, infos: 3},
-	{text: "go depth 3", limited: true, infos: 4}, {text: "go depth 4", limited: true, infos: 5},
-	{text: "go nodes 300", limited: true}, {text: "go nodes 3000", limited: true},
-	{text: "go movetime 3", movetime: true, limited: true, hardMs: 3},
-	{text: "go wtime 90 btime 90", wtime: true, btime: true, limited: true, hardMs: 30},
-	{text: "go infinite"}, {text: "go"},
-	{text: "go ponder depth 3", ponderArg: true, limited: true, infos: 4},
-	{text: "go ponder", ponderArg: true},
-	{text: "go ponder movetime 3", ponderArg: true, movetime: true, limited: true, hardMs: 3},
+// hardMs mirrors timeControl.hardLimit (only used to place the "timer" probes and to decide
+// whether the search ends by itself; the assertions do not depend on it).
+func (g *goTpl) hardMs(black bool) int64 {
+	if g.mt > 0 {
+		return g.mt
+	}
+	left, inc := g.wt, g.wi
+	if black {
+		left, inc = g.bt, g.bi
+	}
+	if left <= 0 {
+		return 0
+	}
+	if left <= 30 {
+		return left
+	}
+	return min(left-30, max(4*(left/30+inc/2), 30))
+}
+
+const (
+	smallDepth = 6    // a real search to this depth ends within a few ms
+	smallNodes = 6000 // ditto (about 15 us per node with the race detector on a loaded machine)
+	smallHard  = 60   // ms
+)
+
+// selfEnds: the real search returns by itself (when it is not pondering) within a few ms.
+func (g *goTpl) selfEnds(black bool) bool {
+	return (g.depth > 0 && g.depth <= smallDepth) || (g.nodes >= 0 && g.nodes <= smallNodes) ||
+		(g.timed(black) && g.hardMs(black) <= smallHard)
+}
+
+// infos: number of info lines a real, non-pondering search writes before it returns by itself
+// (0 = not known exactly): known when a small depth is the only limit.
+func (g *goTpl) infos(black bool) int {
+	if g.depth > 0 && g.depth <= smallDepth && g.nodes < 0 && !g.timed(black) {
+		return g.depth + 1
+	}
+	return 0
+}
+
+// budgetSteps: steps after which a pondering real search has used up all of its depth / node
+// budget (the waits also end when the bestmove arrives).
+func (g *goTpl) budgetSteps() []Step {
+	var st []Step
+	if g.depth > 0 && g.depth <= smallDepth {
+		st = append(st, Step{K: "waitInfo", N: g.depth + 1})
+	}
+	if g.nodes >= 0 && g.nodes <= smallNodes {
+		st = append(st, Step{K: "waitNodes", N: g.nodes})
+	}
+	return st
+}
+
+func pick[T any](rng *rand.Rand, xs ...T) T { return xs[rng.IntN(len(xs))] }
+
+// genGo draws one go line from the grammar.
+func genGo(rng *rand.Rand, ponder bool) goTpl {
+	g := goTpl{nodes: -1, ponderArg: ponder}
+	var parts, cls []string
+	depth := func() {
+		switch r := rng.IntN(10); {
+		case r < 8:
+			g.depth = 1 + rng.IntN(4)
+			cls = append(cls, "depth_small")
+		case r < 9:
+			g.depth = 5 + rng.IntN(2)
+			cls = append(cls, "depth_small")
+		default:
+			g.depth = pick(rng, 63, 64, 100)
+			cls = append(cls, "depth_max")
+		}
+		parts = append(parts, fmt.Sprintf("depth %d", g.depth))
+	}
+	nodes := func() {
+		switch r := rng.IntN(9); {
+		case r < 3:
+			g.nodes = 1 + rng.IntN(1023)
+			cls = append(cls, "nodes_lt1024")
+		case r < 6:
+			g.nodes = 1025 + rng.IntN(3000)
+			if g.nodes%1024 == 0 {
+				g.nodes++
+			}
+			cls = append(cls, "nodes_nonmult1024")
+		case r < 8:
+			g.nodes = 1024 * (1 + rng.IntN(3))
+			cls = append(cls, "nodes_mult1024")
+		default:
+			g.nodes = pick(rng, 1<<31+7, 1000000000001, 1<<40, 3000000000)
+			cls = append(cls, "nodes_huge")
+		}
+		parts = append(parts, fmt.Sprintf("nodes %d", g.nodes))
+	}
+	movetime := func() {
+		if rng.IntN(5) > 0 {
+			g.mt = int64(1 + rng.IntN(5))
+			cls = append(cls, "movetime_small")
+		} else {
+			g.mt = pick[int64](rng, 60000, 3600000)
+			cls = append(cls, "movetime_large")
+		}
+		parts = append(parts, fmt.Sprintf("movetime %d", g.mt))
+	}
+	clock := func() {
+		small := func() int64 { return pick[int64](rng, 25, 60, 90, 150) }
+		switch rng.IntN(6) {
+		case 0, 1:
+			g.wt, g.bt = small(), small()
+			cls = append(cls, "clock_small")
+		case 2:
+			g.wt, g.bt, g.wi, g.bi = 60000, 60000, 100, 100
+			cls = append(cls, "clock_large")
+		case 3:
+			g.wt, g.bt = small(), 0
+			cls = append(cls, "clock_white_only")
+		case 4:
+			g.wt, g.bt = 0, small()
+			cls = append(cls, "clock_black_only")
+		default:
+			if rng.IntN(2) == 0 {
+				g.wt, g.bt = 60000, small()
+			} else {
+				g.wt, g.bt = small(), 300000
+			}
+			cls = append(cls, "clock_asym")
+		}
+		parts = append(parts, fmt.Sprintf("wtime %d btime %d", g.wt, g.bt))
+		if g.wi == 0 && rng.IntN(3) == 0 {
+			g.wi, g.bi = int64(rng.IntN(3)), int64(rng.IntN(3))
+			parts = append(parts, fmt.Sprintf("winc %d binc %d", g.wi, g.bi))
+		} else if g.wi != 0 {
+			parts = append(parts, fmt.Sprintf("winc %d binc %d", g.wi, g.bi))
+		}
+	}
+	infinite := func() {
+		cls = append(cls, "infinite")
+		parts = append(parts, "infinite")
+	}
+	two := func(f, h func()) {
+		if rng.IntN(2) == 0 {
+			f, h = h, f
+		}
+		f()
+		h()
+	}
+	switch r := rng.IntN(20); {
+	case r < 1:
+		cls = append(cls, "none")
+	case r < 3:
+		infinite()
+	case r < 6:
+		depth()
+	case r < 11:
+		nodes()
+	case r < 13:
+		movetime()
+	case r < 15:
+		clock()
+	case r < 17:
+		two(nodes, depth)
+	case r < 18:
+		two(depth, movetime)
+	case r < 19:
+		two(clock, pick(rng, depth, nodes))
+	default:
+		two(infinite, pick(rng, depth, nodes))
+	}
+	if ponder {
+		if rng.IntN(5) == 0 {
+			parts = append(parts, "ponder")
+		} else {
+			parts = append([]string{"ponder"}, parts...)
+		}
+	}
+	g.text = strings.Join(append([]string{"go"}, parts...), " ")
+	sort.Strings(cls)
+	g.class = strings.Join(cls, "+")
+	return g
+}
+
+// ---------------------------------------------------------------------------------------------
+// lexical variation: every spelling below is split by strings.Fields (handleCommand) into the
+// same words as the plain command, so the expected protocol behaviour is that of the plain command.
+// A single trailing \r is removed by bufio.ScanLines (CRLF line ends).
+
+type lexT struct {
+	name                   string
+	lead, sep1, sep, trail string // sep1: between the command word and its first argument
+	cr                     bool
+}
+
+var blanks = []string{" ", "\t", "  ", " \t", "\t ", "\t\t", "   ", " \t "}
+
+func genLex(rng *rand.Rand) lexT {
+	l := lexT{name: "plain", sep1: " ", sep: " "}
+	switch r := rng.IntN(24); {
+	case r < 6:
+	case r < 8:
+		l.name, l.lead = "lead_sp", pick(rng, " ", "  ")
+	case r < 10:
+		l.name, l.lead = "lead_tab", pick(rng, "\t", "\t\t")
+	case r < 12:
+		l.name, l.trail = "trail_sp", pick(rng, " ", "  ")
+	case r < 14:
+		l.name, l.trail = "trail_tab", "\t"
+	case r < 17:
+		l.name, l.sep1 = "word_tab", "\t" // a command without arguments gets the tab as trailer (apply)
+	case r < 19:
+		l.name, l.sep1, l.sep = "multi_blank", pick(rng, blanks[2:]...), pick(rng, blanks[2:]...)
+	case r < 20:
+		l.name, l.cr = "cr", true
+	default:
+		l.name = "mixed"
+		l.lead = pick(rng, append([]string{""}, blanks...)...)
+		l.sep1, l.sep = pick(rng, blanks...), pick(rng, blanks...)
+		l.trail = pick(rng, append([]string{""}, blanks...)...)
+		l.cr = rng.IntN(4) == 0
+	}
+	return l
+}
+
+func (l lexT) apply(text string) string {
+	if l.name == "" || l.name == "plain" {
+		return text
+	}
+	f := strings.Fields(text)
+	var sb strings.Builder
+	sb.WriteString(l.lead)
+	for i, w := range f {
+		switch i {
+		case 0:
+		case 1:
+			sb.WriteString(l.sep1)
+		default:
+			sb.WriteString(l.sep)
+		}
+		sb.WriteString(w)
+	}
+	sb.WriteString(l.trail)
+	if l.name == "word_tab" && len(f) == 1 {
+		sb.WriteString("\t")
+	}
+	if l.cr {
+		sb.WriteString("\r")
+	}
+	return sb.String()
 }
 
 type posT struct {
@@ -159,15 +421,19 @@ var idleCmds = []idleT{
 }
 
 type blockT struct {
-	pos    int // -1: none
-	idle   []int
-	tpl    goTpl
-	term   string // self | stop | quit | eof | hit | timer
-	extra  bool   // an additional isready while the search runs
-	burst  int    // additional ponderhit lines while the search runs
-	fixedT int    // timing of the (non-swept) blocks' probe
-	probe  string // "" | isready | stop | ponderhit | quit | eof
-	mock   MockCfg
+	pos        int // -1: none
+	idle       []int
+	tpl        goTpl
+	term       string // self | stop | quit | eof | hit | timer
+	extra      bool   // an additional isready while the search runs
+	burst      int    // additional ponderhit lines while the search runs
+	fixedT     int    // timing of the (non-swept) blocks' probe
+	probe      string // "" | isready | stop | ponderhit | quit | eof
+	mock       MockCfg
+	postBudget bool // real pondering search: the terminator is written after the depth/node budget is used up
+	// lexical variants of the lines of this block
+	lexPos, lexGo, lexProbe, lexTerm, lexExtra lexT
+	lexIdle, lexBurst                          []lexT
 }
 
 type skeleton struct {
@@ -178,6 +444,8 @@ type skeleton struct {
 	blocks   []blockT
 	target   int // block whose probe timing is swept
 	endEOF   bool
+	lexPre   [3]lexT
+	lexEnd   lexT
 }
 
 func asyncTok(s string) string {
@@ -186,7 +454,7 @@ func asyncTok(s string) string {
 
 func genSkeleton(rng *rand.Rand) skeleton {
 	sk := skeleton{mode: "mock"}
-	if rng.IntN(100) < 40 {
+	if rng.IntN(100) < 45 {
 		sk.mode = "real"
 	}
 	switch r := rng.IntN(10); {
@@ -200,6 +468,10 @@ func genSkeleton(rng *rand.Rand) skeleton {
 	sk.prelude = rng.IntN(10) < 6
 	sk.ponderOn = rng.IntN(10) < 5
 	sk.endEOF = rng.IntN(2) == 0
+	for i := range sk.lexPre {
+		sk.lexPre[i] = genLex(rng)
+	}
+	sk.lexEnd = genLex(rng)
 	nb := 1 + rng.IntN(3)
 	sk.target = rng.IntN(nb)
 	black := false
@@ -211,14 +483,17 @@ func genSkeleton(rng *rand.Rand) skeleton {
 		}
 		for k := rng.IntN(3); k > 0; k-- {
 			bl.idle = append(bl.idle, rng.IntN(len(idleCmds)))
+			bl.lexIdle = append(bl.lexIdle, genLex(rng))
 		}
-		tpls := mockGo
-		if sk.mode == "real" {
-			tpls = realGo
+		// `go ponder` is mostly sent when the Ponder option is on, but also when it is off (then the
+		// driver runs a normal search)
+		ponderArg := rng.IntN(100) < 30
+		if sk.ponderOn {
+			ponderArg = rng.IntN(100) < 65
 		}
-		bl.tpl = tpls[rng.IntN(len(tpls))]
+		bl.tpl = genGo(rng, ponderArg)
 		ponder := sk.ponderOn && bl.tpl.ponderArg
-		timed := bl.tpl.movetime || (!black && bl.tpl.wtime) || (black && bl.tpl.btime)
+		timed := bl.tpl.timed(black)
 		// terminator
 		var terms []string
 		if sk.mode == "mock" {
@@ -226,12 +501,14 @@ func genSkeleton(rng *rand.Rand) skeleton {
 			if ponder {
 				terms = append(terms, "hit", "hit")
 			}
-			if bl.tpl.hardMs > 0 && !ponder && timed {
+			if timed && !ponder && bl.tpl.hardMs(black) <= 5 {
 				terms = append(terms, "timer", "timer")
+			} else if timed && !ponder && bl.tpl.hardMs(black) <= smallHard {
+				terms = append(terms, "timer")
 			}
 		} else {
 			terms = []string{"stop", "stop", "quit", "eof"}
-			limited := bl.tpl.limited && (timed || !(bl.tpl.movetime || bl.tpl.wtime || bl.tpl.btime))
+			limited := bl.tpl.selfEnds(black)
 			if limited && !ponder {
 				terms = []string{"self", "self", "self", "stop", "quit", "eof"}
 			}
@@ -240,6 +517,7 @@ func genSkeleton(rng *rand.Rand) skeleton {
 			}
 		}
 		bl.term = terms[rng.IntN(len(terms))]
+		bl.postBudget = rng.IntN(2) == 0
 		bl.mock = MockCfg{Infos: rng.IntN(7), EndOnHit: bl.term == "hit"}
 		if bl.term != "hit" && rng.IntN(4) == 0 {
 			bl.mock.EndOnHit = true
@@ -260,21 +538,32 @@ func genSkeleton(rng *rand.Rand) skeleton {
 		if b != sk.target && rng.IntN(2) == 0 {
 			bl.probe = ""
 		}
+		bl.lexPos, bl.lexGo, bl.lexProbe, bl.lexTerm, bl.lexExtra = genLex(rng), genLex(rng), genLex(rng), genLex(rng), genLex(rng)
+		for k := 0; k < bl.burst; k++ {
+			bl.lexBurst = append(bl.lexBurst, genLex(rng))
+		}
 		sk.blocks = append(sk.blocks, bl)
 	}
 	return sk
 }
 
-func send(s, t string) Step { return Step{K: "send", S: s, T: t} }
+// send writes text in the lexical variant l; the model token is that of the plain command.
+func send(text, tok string, l lexT) Step {
+	name := l.name
+	if name == "" {
+		name = "plain"
+	}
+	return Step{K: "send", S: l.apply(text), T: tok, V: name}
+}
 
-func probeStep(p string) []Step {
+func probeStep(p string, l lexT) []Step {
 	switch p {
 	case "":
 		return nil
 	case "eof":
 		return []Step{{K: "eof"}}
 	default:
-		return []Step{send(p, asyncTok(p))}
+		return []Step{send(p, asyncTok(p), l)}
 	}
 }
 
@@ -283,22 +572,22 @@ func (sk *skeleton) build(id, script, t int) Spec {
 	sp := Spec{ID: id, Script: script, Timing: t, Mode: sk.mode, SinkUs: sk.sinkUs}
 	add := func(st ...Step) { sp.Steps = append(sp.Steps, st...) }
 	if sk.prelude {
-		add(send("uci", "i:other1111101"), send("isready", "i:isready"))
+		add(send("uci", "i:other1111101", sk.lexPre[0]), send("isready", "i:isready", sk.lexPre[1]))
 	}
 	if sk.ponderOn {
-		add(send("setoption name Ponder value true", "i:other"))
+		add(send("setoption name Ponder value true", "i:other", sk.lexPre[2]))
 	}
 	black := false
 	for bi, bl := range sk.blocks {
 		if bl.pos >= 0 {
-			add(send(positions[bl.pos].text, "i:other"))
+			add(send(positions[bl.pos].text, "i:other", bl.lexPos))
 			black = positions[bl.pos].black
 		}
-		for _, ic := range bl.idle {
-			add(send(idleCmds[ic].text, idleCmds[ic].tok))
+		for k, ic := range bl.idle {
+			add(send(idleCmds[ic].text, idleCmds[ic].tok, bl.lexIdle[k]))
 		}
 		ponder := sk.ponderOn && bl.tpl.ponderArg
-		timed := bl.tpl.movetime || (!black && bl.tpl.wtime) || (black && bl.tpl.btime)
+		timed := bl.tpl.timed(black)
 		b2 := func(b bool) string {
 			if b {
 				return "1"
@@ -310,7 +599,23 @@ func (sk *skeleton) build(id, script, t int) Spec {
 			tm = t
 			sp.Probe, sp.Term = bl.probe, bl.term
 		}
-		probe := probeStep(bl.probe)
+		// ponder: pondering search; ponder(option off): `go ponder` run as a normal search
+		cls := bl.tpl.class
+		switch {
+		case ponder:
+			cls = "ponder+" + cls
+		case bl.tpl.ponderArg:
+			cls = "ponder(option off)+" + cls
+		}
+		pk := bl.probe
+		if pk == "" {
+			pk = "none"
+		}
+		if bi == sk.target {
+			sp.Class = cls
+		}
+		sp.Blocks = append(sp.Blocks, fmt.Sprintf("%s:%s|probe=%s", sk.mode, cls, pk), fmt.Sprintf("%s:%s|term=%s", sk.mode, cls, bl.term))
+		probe := probeStep(bl.probe, bl.lexProbe)
 		var term []Step
 		switch bl.term {
 		case "self":
@@ -318,18 +623,28 @@ func (sk *skeleton) build(id, script, t int) Spec {
 				term = []Step{{K: "release"}}
 			}
 		case "stop":
-			term = []Step{send("stop", "i:stop")}
+			term = []Step{send("stop", "i:stop", bl.lexTerm)}
 		case "quit":
-			term = []Step{send("quit", "i:quit")}
+			term = []Step{send("quit", "i:quit", bl.lexTerm)}
 		case "eof":
 			term = []Step{{K: "eof"}}
 		case "hit":
-			term = []Step{send("ponderhit", "i:ponderhit")}
+			term = []Step{send("ponderhit", "i:ponderhit", bl.lexTerm)}
 		case "timer":
-			term = []Step{{K: "sleep", N: bl.tpl.hardMs*1000 - 60}}
+			term = []Step{{K: "sleep", N: int(bl.tpl.hardMs(black))*1000 - 60}}
 		}
 		sp.Mocks = append(sp.Mocks, bl.mock)
-		add(send(bl.tpl.text, "i:go"+b2(ponder)+b2(timed)))
+		goStep := send(bl.tpl.text, "i:go"+b2(ponder)+b2(timed), bl.lexGo)
+		goStep.P = ponder
+		if sk.mode == "real" {
+			if bl.tpl.nodes >= 0 && bl.tpl.nodes <= smallNodes {
+				goStep.NB = bl.tpl.nodes + 1
+			}
+			if bl.tpl.depth > 0 && bl.tpl.depth <= smallDepth {
+				goStep.DB = bl.tpl.depth
+			}
+		}
+		add(goStep)
 		at := func(k int) {
 			if tm == k {
 				add(probe...)
@@ -343,12 +658,13 @@ func (sk *skeleton) build(id, script, t int) Spec {
 		}
 		at(1)
 		if bl.extra {
-			add(send("isready", "i:isready"))
+			add(send("isready", "i:isready", bl.lexExtra))
 		}
 		for k := 0; k < bl.burst; k++ {
-			add(send("ponderhit", "i:ponderhit"))
+			add(send("ponderhit", "i:ponderhit", bl.lexBurst[k]))
 		}
 		selfReal := sk.mode == "real" && len(term) == 0
+		infos := bl.tpl.infos(black)
 		if !selfReal {
 			if sk.mode == "mock" && bl.mock.Infos >= 1 {
 				add(Step{K: "waitInfo", N: 1})
@@ -359,6 +675,11 @@ func (sk *skeleton) build(id, script, t int) Spec {
 			if tm == 2 {
 				add(probe...)
 				add(Step{K: "sleep", N: 100})
+			}
+			if sk.mode == "real" && ponder && bl.postBudget {
+				// a pondering search ignores its depth / node budget: let it use the budget up before it
+				// is stopped / quit / EOF'd / ponderhit (with the probe of timings 0..2 before, 3.. after)
+				add(bl.tpl.budgetSteps()...)
 			}
 			at(3)
 			add(term...)
@@ -371,18 +692,18 @@ func (sk *skeleton) build(id, script, t int) Spec {
 				add(Step{K: "sleep", N: 200})
 				add(probe...)
 			}
-		} else if bl.tpl.infos > 0 {
+		} else if infos > 0 {
 			// depth-limited real search: the last info line is written just before Go returns
 			if tm == 2 {
 				add(Step{K: "sleep", N: 100})
 				add(probe...)
 			}
 			if tm == 3 {
-				add(Step{K: "waitInfo", N: bl.tpl.infos - 1})
+				add(Step{K: "waitInfo", N: infos - 1})
 				add(probe...)
 			}
 			if tm >= 4 && tm <= 6 {
-				add(Step{K: "waitInfo", N: bl.tpl.infos})
+				add(Step{K: "waitInfo", N: infos})
 				add(Step{K: "sleep", N: []int{0, 30, 200}[tm-4]})
 				add(probe...)
 			}
@@ -398,7 +719,7 @@ func (sk *skeleton) build(id, script, t int) Spec {
 	if sk.endEOF {
 		add(Step{K: "eof"})
 	} else {
-		add(send("quit", "i:quit"))
+		add(send("quit", "i:quit", sk.lexEnd))
 	}
 	return sp
 }
@@ -407,22 +728,47 @@ func (sk *skeleton) build(id, script, t int) Spec {
 // child: executing one run
 
 type recorder struct {
-	mu      sync.Mutex
-	toks    []string
-	nGo     int
-	nBest   int
-	nInfo   int // info lines of the current search (reset at go)
-	fail    string
-	detail  string
-	entered int
-	hist    []string
-	async   bool
+	mu    sync.Mutex
+	toks  []string
+	nGo   int
+	nBest int
+	nInfo int // info lines of the current search (reset at go)
+	nodes int // largest node count reported by an info line of the current search
+	// the current search (histogram only)
+	curPonder, curHit bool
+	curNB, curDB      int
+	fail              string
+	detail            string
+	entered           int
+	hist              []string
+	async             bool
 }
 
 func (r *recorder) add(tok string) {
 	r.mu.Lock()
 	r.toks = append(r.toks, tok)
 	r.mu.Unlock()
+}
+
+// termKind classifies (for the histogram) the way a pondering search is terminated by stop / quit /
+// EOF: with or without a ponderhit written before, and whether the search had by then been seen
+// (by its info lines) to have used up its node / depth budget.  Call with r.mu held.
+func (r *recorder) termKind(by string) {
+	if r.nGo <= r.nBest || !r.curPonder {
+		return
+	}
+	budget := "no_budget"
+	if r.curNB > 0 || r.curDB > 0 {
+		budget = "budget_used_up"
+		if (r.curNB > 0 && r.nodes < r.curNB-1) || (r.curDB > 0 && r.nInfo < r.curDB+1) {
+			budget = "budget_left"
+		}
+	}
+	hit := "no_ponderhit_before"
+	if r.curHit {
+		hit = "after_ponderhit"
+	}
+	r.hist = append(r.hist, "ponder_end:"+by+"/"+budget+"/"+hit)
 }
 
 func (r *recorder) setFail(f, d string) {
@@ -435,6 +781,8 @@ var (
 	reReady = regexp.MustCompile(`^readyok$`)
 	reBest  = regexp.MustCompile(`^bestmove [a-h][1-8][a-h][1-8][qrbn]?( ponder [a-h][1-8][a-h][1-8][qrbn]?)?$`)
 	reInfo  = regexp.MustCompile(`^info depth \d+ (score (cp|mate) -?\d+ nodes \d+ time \d+ hashfull \d+ pv ([a-h][1-8][a-h][1-8][qrbn]?( [a-h][1-8][a-h][1-8][qrbn]?)*)?|nodes \d+)$`)
+	reNodes = regexp.MustCompile(` nodes (\d+)`)
+	reTabW  = regexp.MustCompile(`^[ \t]*[^ \t]+\t`)
 	reOther = regexp.MustCompile(`^(id name chess-3 \S+|id author Paul Sonkoly|option name \w+ type (spin default \d+ min \d+ max \d+|check default false)|uciok|[1-8pnbrqkPNBRQK/]+ [wb] (-|[KQkq]+) (-|[a-h][36]) \d+ \d+|-?\d+|cp -?\d+|mate -?\d+|\S+ nps)$`)
 )
 
@@ -499,6 +847,11 @@ func (s *sink) Write(b []byte) (int, error) {
 		r.nBest++
 	case "info":
 		r.nInfo++
+		if m := reNodes.FindSubmatch(b); m != nil {
+			if n, err := strconv.Atoi(string(m[1])); err == nil && n > r.nodes {
+				r.nodes = n
+			}
+		}
 	}
 	return len(b), nil
 }
@@ -661,11 +1014,33 @@ func runSpec(sp *Spec, real *search.Search) Res {
 			if strings.HasPrefix(st.T, "i:go") {
 				rec.nGo++
 				rec.nInfo = 0
+				rec.nodes = 0
+				rec.curPonder, rec.curHit, rec.curNB, rec.curDB = st.P, false, st.NB, st.DB
 			} else if outstanding && (st.T == "i:stop" || st.T == "i:isready" || st.T == "i:ponderhit" || st.T == "i:quit") {
 				rec.async = true
 			}
 			if st.T == "i:isready" {
 				sentReady++
+			}
+			switch st.T {
+			case "i:stop", "i:quit":
+				rec.termKind(st.T[2:])
+			case "i:ponderhit":
+				if outstanding {
+					rec.curHit = true
+				}
+			}
+			// lexical histogram: variant x command word x (idle|busy)
+			word, state := "(blank)", "idle"
+			if f := strings.Fields(st.S); len(f) > 0 {
+				word = f[0]
+			}
+			if outstanding {
+				state = "busy"
+			}
+			rec.hist = append(rec.hist, "lex:"+st.V+"/"+word+"/"+state)
+			if reTabW.MatchString(st.S) {
+				rec.hist = append(rec.hist, "lex:TAB_DIRECTLY_AFTER_WORD/"+word+"/"+state)
 			}
 			rec.mu.Unlock()
 			lines <- st.S
@@ -681,6 +1056,7 @@ func runSpec(sp *Spec, real *search.Search) Res {
 				rec.async = true
 			}
 			rec.toks = append(rec.toks, "eof")
+			rec.termKind("eof")
 			rec.mu.Unlock()
 			closed = true
 			close(eofCh)
@@ -703,6 +1079,13 @@ func runSpec(sp *Spec, real *search.Search) Res {
 				rec.setFail("timeout_no_info", "neither info lines nor bestmove within the timeout")
 				rec.mu.Unlock()
 			}
+		case "waitNodes":
+			n := st.N
+			if !rec.waitFor(func() bool { return rec.nodes >= n || rec.nBest >= rec.nGo }) {
+				rec.mu.Lock()
+				rec.setFail("timeout_no_info", "neither an info line reporting the node budget nor bestmove within the timeout")
+				rec.mu.Unlock()
+			}
 		case "sleep":
 			spin(time.Duration(st.N) * time.Microsecond)
 		case "release":
@@ -720,9 +1103,15 @@ func runSpec(sp *Spec, real *search.Search) Res {
 		close(eofCh)
 	}
 	returned := true
+	retWait := waitTimeout
+	rec.mu.Lock()
+	if strings.HasPrefix(rec.fail, "timeout") {
+		retWait = time.Second // an answer is already missing: the run is a failing input either way
+	}
+	rec.mu.Unlock()
 	select {
 	case <-runDone:
-	case <-time.After(waitTimeout):
+	case <-time.After(retWait):
 		returned = false
 	}
 	pr.Close() // unblocks the feeder if the reader goroutine left lines unread (after quit)
@@ -857,6 +1246,7 @@ func childMain() {
 type childOutcome struct {
 	results []Res
 	died    []diedT
+	skipped int
 }
 type diedT struct {
 	spec   *Spec
@@ -864,9 +1254,20 @@ type diedT struct {
 	stderr string
 }
 
+// failCap bounds the time spent on a tree on which very many runs fail (each failing run costs a
+// timeout): once that many failing runs have been collected, children are not restarted on their
+// remaining runs (counted as skipped_after_fail_cap; on a tree without failures nothing is skipped).
+const failCap = 40
+
+var failures atomic.Int64
+
 func runChild(self string, specs []*Spec) childOutcome {
 	var oc childOutcome
 	for len(specs) > 0 {
+		if failures.Load() >= failCap {
+			oc.skipped += len(specs)
+			break
+		}
 		cmd := exec.Command(self, "-child")
 		cmd.Env = append(os.Environ(), "GORACE=halt_on_error=1 exitcode=66")
 		stdin, _ := cmd.StdinPipe()
@@ -895,6 +1296,9 @@ func runChild(self string, specs []*Spec) childOutcome {
 				if json.Unmarshal(line, &r) == nil {
 					oc.results = append(oc.results, r)
 					n++
+					if r.Fail != "" {
+						failures.Add(1)
+					}
 				}
 			}
 			if err != nil {
@@ -914,6 +1318,7 @@ func runChild(self string, specs []*Spec) childOutcome {
 			continue
 		}
 		if n < len(specs) {
+			failures.Add(1)
 			oc.died = append(oc.died, diedT{spec: specs[n], code: code, stderr: tail(errb.String(), 3000)})
 			specs = specs[n+1:]
 		} else {
@@ -984,6 +1389,9 @@ func main() {
 	var all []Res
 	for _, oc := range outcomes {
 		all = append(all, oc.results...)
+		if oc.skipped > 0 {
+			res.Count("skipped_after_fail_cap", oc.skipped)
+		}
 		for _, dd := range oc.died {
 			kind := "crash"
 			switch {
@@ -1030,11 +1438,20 @@ func main() {
 		res.Count("mode_"+sp.Mode, 1)
 		res.Count(fmt.Sprintf("probe_%s@t%d", sp.Probe, sp.Timing), 1)
 		res.Count("term_"+sp.Term, 1)
+		for _, b := range sp.Blocks {
+			res.Count("go["+b+"]", 1)
+		}
 		seen := map[string]bool{}
 		for _, h := range r.Hist {
 			if !seen[h] {
 				seen[h] = true
-				res.Count("runs_with_"+h, 1)
+				if strings.HasPrefix(h, "lex:") {
+					res.Count("lex["+h[4:]+"]", 1)
+				} else if strings.HasPrefix(h, "ponder_end:") {
+					res.Count("ponder_end["+sp.Mode+":"+h[11:]+"]", 1)
+				} else {
+					res.Count("runs_with_"+h, 1)
+				}
 			}
 		}
 		if r.Async {
